@@ -11,9 +11,10 @@ import (
 )
 
 // anchors:  "call NAME#k"  (before the k-th call of NAME, arguments evaluated)
-//           "after NAME#k" (after it returned)
-//           "store T.f#k"  (before the k-th store to field f of a T)
-//           "label L"      (on entry of the block labelled L)
+//
+//	"after NAME#k" (after it returned)
+//	"store T.f#k"  (before the k-th store to field f of a T)
+//	"label L"      (on entry of the block labelled L)
 func (v *FnVC) anchored(anchor string) []*Clause {
 	var out []*Clause
 	for _, cl := range v.fc.Clauses {
@@ -28,6 +29,9 @@ func (v *FnVC) runAnchored(anchor string, pos token.Pos, extra map[string]Term) 
 	cls := v.anchored(anchor)
 	if len(cls) == 0 {
 		return
+	}
+	for _, cl := range cls {
+		v.usedClause[cl] = true
 	}
 	env := v.newEnvAt(v.st, pos)
 	for k, t := range extra {
@@ -64,16 +68,31 @@ func (v *FnVC) ghostAtCall(site, when string, pnames []string, args []Term) {
 
 // ghostSetsAt executes ghost assignments anchored at a call site ("ghost-set call NAME#k : g[i] = e").
 func (v *FnVC) ghostSetsAt(anchor string, extra map[string]Term) {
-	for _, gs := range v.fc.GhostSets {
+	for i, gs := range v.fc.GhostSets {
 		if gs[0] != anchor {
 			continue
 		}
+		v.usedGhostSet[i] = true
 		env := v.newEnvAt(v.st, token.NoPos)
 		for k, t := range extra {
 			env.vars[k] = t
 		}
-		v.ghostAssign(gs[1], gs[2], env)
+		v.ghostAssignSafe(i, gs[1], gs[2], env)
 	}
+}
+
+// ghostAssignSafe: a ghost assignment that no longer fits the code is recorded as stale and skipped.
+func (v *FnVC) ghostAssignSafe(i int, lhs, rhs string, env *Env) {
+	defer func() {
+		if r := recover(); r != nil {
+			if se, ok := r.(specError); ok {
+				v.staleGhostSet[i] = se.msg
+				return
+			}
+			panic(r)
+		}
+	}()
+	v.ghostAssign(lhs, rhs, env)
 }
 
 // ghostAssign performs `lhs = rhs` on a ghost variable; lhs is NAME or NAME[index].
@@ -84,11 +103,11 @@ func (v *FnVC) ghostAssign(lhs, rhs string, env *Env) {
 	}
 	g, ok := v.w.cs.Ghosts[name]
 	if !ok {
-		panic(specError{"ghost-set: unknown ghost variable " + name})
+		panic(specError{msg: "ghost-set: unknown ghost variable " + name})
 	}
 	e, err := ParseExpr(rhs)
 	if err != nil {
-		panic(specError{"ghost-set: " + err.Error()})
+		panic(specError{msg: "ghost-set: " + err.Error()})
 	}
 	t := v.specTerm(e, env, nil)
 	key := v.w.ghostKey(g)
@@ -98,7 +117,7 @@ func (v *FnVC) ghostAssign(lhs, rhs string, env *Env) {
 	}
 	ie, err := ParseExpr(idx)
 	if err != nil {
-		panic(specError{"ghost-set: " + err.Error()})
+		panic(specError{msg: "ghost-set: " + err.Error()})
 	}
 	it := v.specTerm(ie, env, nil)
 	v.set(key, v.heapSort(key), "(store "+v.get(key)+" "+it.S+" "+t.S+")")
@@ -119,4 +138,18 @@ func (v *FnVC) ghostAtStore(x *ssa.Store, p *Place) {
 func (v *FnVC) frameCheck(site string) {
 	// implemented in frame.go once heap contracts need it
 	v.frameObligations(site)
+}
+
+// unusedAnchored lists anchored or loop clauses whose anchor / loop never occurred in the function body.
+func (v *FnVC) unusedAnchored() []*Clause {
+	var out []*Clause
+	for _, cl := range v.fc.Clauses {
+		if cl.Behav != "" && cl.Behav != v.behav {
+			continue
+		}
+		if (cl.Anchor != "" || cl.Loop != "") && !v.usedClause[cl] {
+			out = append(out, cl)
+		}
+	}
+	return out
 }
